@@ -198,6 +198,7 @@ def gen_world(rng, pr):
         return memo[i]
 
     ovf_nodes = []
+    mid_nodes = []
 
     def pick_kid():
         r = rng.random()
@@ -218,7 +219,16 @@ def gen_world(rng, pr):
                         ovf_nodes.append(add({"op": "Exponential", "base": rng.choice([math.e, 10])}, [c]))
                     else:
                         ovf_nodes.append(add({"op": "Constant", "value": rng.choice([1e200, 1e160])}))
-            return rng.choice(ovf_nodes)
+                    mid_nodes.append(ovf_nodes[-1])
+            pick = rng.choice(ovf_nodes)
+            if pick in mid_nodes and ord_vars and rng.random() < 0.6:
+                # value fine, derivative not: the quotient rule squares the denominator, so as_expression()
+                # / early construction fail with OverflowError while evaluation and numeric partials work --
+                # the "failed simplification followed by successful use of the same object" history
+                num = var_ids[rng.choice(ord_vars)] if rng.random() < 0.7 else rng.randrange(len(nodes))
+                if info[num][0] + 1 <= pr.max_depth:
+                    return add({"op": "Divide"}, [num, pick])
+            return pick
         if rng.random() < pr.clone_prob:
             cands = [i for i in range(n) if 2 <= info[i][1] <= 12 and info[i][0] >= 2]
             if cands:
